@@ -76,6 +76,7 @@ type desc struct {
 	NoNorm   bool     `json:"nonorm,omitempty"` // DisableHeaderNamesNormalizing
 	Conns    [][]reqD `json:"conns,omitempty"`
 	Scribble bool     `json:"scribble,omitempty"`
+	TOWrap   bool     `json:"towrap,omitempty"` // the handler runs under fasthttp.TimeoutHandler; a "timeout" action overruns its deadline
 }
 
 // ---------------------------------------------------------------------------
@@ -437,7 +438,25 @@ func scribble(ctx *fasthttp.RequestCtx, q reqD, stream bool) {
 	if !stream {
 		r.SetBodyString("leaked request body")
 	}
+	r.Header.SetRequestURI("/leak/requri")
+	r.Header.SetTrailer("X-Leak-Trailer") //nolint:errcheck
+	r.Header.PeekAll("X-Leak-Multi")      // fills the mulHeader scratch list
+	r.Header.SetNoDefaultContentType(true)
+	r.Header.DisableNormalizing()
+	r.URI().SetScheme("https")
+	r.URI().SetHost("leak.uri.host")
+	if q.Act != "hijack" {
+		ctx.HijackSetNoResponse(true) // without a hijack handler the mark must be dropped by the loop
+	}
+	variantB := len(q.URI)%2 == 1
+	if !stream && variantB {
+		r.SetBodyRaw([]byte("leaked raw request body"))
+	}
 	p := &ctx.Response
+	p.Header.DisableNormalizing()
+	p.Header.PeekAll("X-Leak-Resp")
+	p.Header.SetProtocol([]byte("HTTP/1.0"))
+	p.StreamBody = true
 	p.SetStatusCode(299)
 	p.Header.Set("X-Leak-Resp", "h")
 	p.Header.SetContentType("leak/resp")
@@ -450,6 +469,12 @@ func scribble(ctx *fasthttp.RequestCtx, q reqD, stream bool) {
 	c.SetValue("v")
 	p.Header.SetCookie(&c)
 	p.SetBodyString("leaked response body")
+	if variantB {
+		p.SetBodyRaw([]byte("leaked raw response body"))
+	}
+	if len(q.URI)%3 == 0 {
+		p.SetBodyStream(strings.NewReader("leaked streamed response body"), -1)
+	}
 	p.ImmediateHeaderFlush = true
 }
 
@@ -586,7 +611,7 @@ type served struct {
 	snapText string
 }
 
-var statusRe = regexp.MustCompile(`HTTP/1\.1 (\d\d\d) `)
+var statusRe = regexp.MustCompile(`HTTP/1\.[01] (\d\d\d) `)
 
 func newServer(d desc, onHandler func(ctx *fasthttp.RequestCtx)) *fasthttp.Server {
 	s := &fasthttp.Server{
@@ -602,6 +627,9 @@ func newServer(d desc, onHandler func(ctx *fasthttp.RequestCtx)) *fasthttp.Serve
 		Logger:                        nullLogger{},
 		Name:                          "c11",
 		Handler:                       onHandler,
+	}
+	if d.TOWrap && onHandler != nil {
+		s.Handler = fasthttp.TimeoutHandler(onHandler, 40*time.Millisecond, "timed out")
 	}
 	if d.HdrRecv {
 		s.HeaderReceived = func(h *fasthttp.RequestHeader) fasthttp.RequestConfig {
@@ -656,7 +684,11 @@ func runHist(d desc) hlib.Case {
 			case "close":
 				ctx.SetConnectionClose()
 			case "timeout":
-				ctx.TimeoutError("timed out")
+				if d.TOWrap {
+					time.Sleep(120 * time.Millisecond) // TimeoutHandler gives up on this call; the ctx is never reused
+				} else {
+					ctx.TimeoutError("timed out")
+				}
 			case "hijack":
 				pendingHijacks++
 				ctx.Hijack(func(c net.Conn) { hijackDone <- struct{}{} })
@@ -734,10 +766,17 @@ func runHist(d desc) hlib.Case {
 				case "close":
 					ctx.SetConnectionClose()
 				case "timeout":
-					ctx.TimeoutError("timed out")
+					if d.TOWrap {
+						time.Sleep(120 * time.Millisecond)
+					} else {
+						ctx.TimeoutError("timed out")
+					}
 				case "hijack":
 					ctx.Hijack(func(c net.Conn) {})
 				}
+			}
+			if d.TOWrap {
+				rs.Handler = fasthttp.TimeoutHandler(rs.Handler, 40*time.Millisecond, "timed out")
 			}
 			cur = nil
 			rc := &lconn{r: bytes.NewReader(wire(q, idx+k))}
@@ -890,6 +929,7 @@ func gen(r *rand.Rand, i int) desc {
 		d.MaxReqs = 1 + r.Intn(3)
 	}
 	d.NoNorm = r.Intn(10) == 0
+	d.TOWrap = r.Intn(12) == 0
 	nc := 1 + r.Intn(3)
 	for c := 0; c < nc; c++ {
 		n := 1 + r.Intn(4)
@@ -945,6 +985,12 @@ func corpus() []desc {
 				c = append(c, d)
 			}
 		}
+	}
+	// the handler under fasthttp.TimeoutHandler (timeoutCh / timeoutTimer / concurrency slot reused by later requests)
+	for _, stream := range []bool{false, true} {
+		d := desc{Op: "hist", Stream: stream, Scribble: true, TOWrap: true}
+		d.Conns = [][]reqD{{post, get, {Method: "GET", URI: "/t", Act: "timeout"}, get, post}, {get, mp, get}}
+		c = append(c, d)
 	}
 	// the scribble changes Content-Length of a streamed request
 	d := desc{Op: "hist", Stream: true, Scribble: true}
